@@ -46,7 +46,7 @@ EXPRS = ["1", "1+2", "-5", "[1, 2]", "'x'", "\"o'q\"", "1/0", "None", "os.sep", 
          "(yield)", "5;6", "#c", "2 #c", "\n3", " 4", "raise", "sys.exit(3)", "[][0]", "...", "1 .real", "abc",
          "zzzq", "{**1}", "1if 1else 2", "0777", "b'x'", "2**10", "'a' 'b'", "(w_:=1)", "not 1", "str", "lambda: 0",
          "__import__('os').sep", "os.path.join('a', 'b')", "undefined_name_1 + 1", "print(end='')"]
-SHELL = ["o'q", "$HOME", "a;b", "*.py", "~/x", "a|b", "`ls`", "--x", "-5", "=", "foo=1", "/usr/bin", "a\\b", "\u00e9",
+SHELL = ["o'q", "$HOME", "a;b", "*.py", "~/x", "a|b", "`ls`", "--x", "-5", "=", "fq_=1", "/usr/bin", "a\\b", "\u00e9",
          "*a", "a&&b", ">out", "-", "--", "-x=1", "--foo", "--foo=1", "?", "??", "a=b=c", "$(id)", "!ls", "%time", "'",
          "\"", "rm -rf /tmp/x", "a\nb", "--=", "---"]
 VALS = PLAIN + EXPRS + SHELL
@@ -197,6 +197,100 @@ def gen_bind_case(r, i):
             if p not in sig["kwdefaults"]:
                 kw.setdefault(p, "v_" + p)
     return {"kind": "bind", "i": i, "sig": sig, "pos": pos, "kw": [[k, v] for k, v in kw.items()]}
+
+
+# ---- size extremes: long flat evaluable arguments (no deep nesting), long non-expressions, many arguments, many options
+
+SIZES_QUICK = [1000, 4000, 4090, 4096, 4097, 5000, 5000, 9000, 16000]
+
+
+def long_text(r, size, form):
+    if form == "list":
+        k = max(1, (size - 2) // 2)
+        return "[" + ",".join(["0"] * k) + "]"
+    if form == "tuple":
+        k = max(1, (size - 2) // 3)
+        return "(" + "".join("1, " for _ in range(k)).rstrip() + ")"
+    if form == "str":
+        return "'" + "a" * max(1, size - 2) + "'"
+    if form == "sum":
+        return "+".join(["1"] * max(2, min(size, 240) // 2))     # nesting depth stays small: deep chains already fail on the agreed tree (RecursionError in the analysis)
+    if form == "call":
+        return "len([" + "1," * max(1, (size - 7) // 2) + "])"
+    return ("a b " * (size // 4 + 1))[:size]        # not an expression: must arrive as the string
+
+
+def gen_extreme_case(r, i, size=None):
+    size = size or r.choice(SIZES_QUICK)
+    form = r.choice(["list", "list", "tuple", "str", "sum", "call", "raw"]) if size < 30000 else "str"
+    s = long_text(r, size, form)
+    sig = {"args": r.choice([["a"], ["a", "b"], []]), "ndefaults": 0, "varargs": True, "kwonly": ["key", "k2"],
+           "kwdefaults": ["key", "k2"], "varkw": r.random() < .7}
+    sig["ndefaults"] = len(sig["args"])
+    small = lambda: r.choice(["1", "abc", "1+2", "'x'", "a b", "None"])
+    where = r.choice(["pos", "pos_last", "opt_eq", "opt_next", "opt_prefix", "dash_opt", "after_dd", "stdin", "kw_extra"]) if size < 30000 \
+        else r.choice(["pos", "opt_eq"])
+    stdin = "STDIN"
+    if where == "pos":
+        argv = [s] + [small() for _ in range(r.randint(0, 2))]
+    elif where == "pos_last":
+        argv = [small() for _ in range(r.randint(1, 3))] + [s]
+    elif where == "opt_eq":
+        argv = [small(), "--key=" + s]
+    elif where == "opt_next":
+        argv = ["--key", s, small()]
+    elif where == "opt_prefix":
+        argv = ["--ke=" + s, "--k2", s] if size <= 5000 else ["--ke=" + s]
+    elif where == "dash_opt":
+        argv = ["-key", s]
+    elif where == "after_dd":
+        argv = [small(), "--", s, small()]
+    elif where == "stdin":
+        argv = ["-", small()]
+        stdin = s
+    else:
+        argv = ["--extra=" + s] if sig["varkw"] else ["--key=" + s]
+    return {"kind": "parse", "i": i, "big": True, "sig": sig, "ckind": "function", "argv": argv,
+            "mode": r.choice(MODES + ["auto", "auto"]), "stdin": stdin}
+
+
+def gen_many_case(r, i):
+    """hundreds of arguments / options"""
+    n = r.choice([60, 120, 250, 400])
+    sig = {"args": ["a", "b"], "ndefaults": 1, "varargs": True, "kwonly": ["key"], "kwdefaults": ["key"], "varkw": True}
+    vals = ["1", "abc", "1+2", "'x'", "a b", "None", "-5", "[1, 2]", "zzzq", ""]
+    argv = []
+    style = r.choice(["positionals", "options", "mixed", "repeated"])
+    for j in range(n):
+        k = r.random()
+        if style == "positionals" or (style == "mixed" and k < .5):
+            v = r.choice(vals)
+            argv.append(v if not v.startswith("-") and v else "q")
+        elif style == "repeated":
+            argv.append("--%s=%s" % (r.choice(["key", "ke", "k", "zz"]), r.choice(vals)))
+        else:
+            name = "o%d" % r.randint(0, n // 2)
+            if r.random() < .7:
+                argv.append("--%s=%s" % (name, r.choice(vals)))
+            else:
+                v = r.choice(vals)
+                argv += ["--" + name, v if not v.startswith("--") else "x"]
+    if style != "options" and r.random() < .5:
+        argv = ["first"] + argv
+    return {"kind": "parse", "i": i, "big": True, "sig": sig, "ckind": "function", "argv": argv,
+            "mode": r.choice(MODES + ["auto"]), "stdin": "STDIN"}
+
+
+def gen_big_cases(ctx):
+    out = []
+    nx, nm = (10, 4) if ctx.quick else (60, 20)
+    for j in range(nx * ctx.scale):
+        out.append(gen_extreme_case(cm.rng(ctx.seed, "c15big", j), "x%d" % j))
+    for j in range((1 if ctx.quick else 4) * ctx.scale):
+        out.append(gen_extreme_case(cm.rng(ctx.seed, "c15huge", j), "h%d" % j, size=64000))
+    for j in range(nm * ctx.scale):
+        out.append(gen_many_case(cm.rng(ctx.seed, "c15many", j), "n%d" % j))
+    return out
 
 
 ARGMODES = ["eval", "evaluate", "exprs", "expr", "expressions", "expression", "e", "strings", "string", "str", "strs",
@@ -610,8 +704,9 @@ def model_exprs(cases, impl):
         if c["kind"] == "parse":
             exprs.append(parse_expr(c, im, True))
             index.append((ci, "parse"))
-            exprs.append(parse_expr(c, im, False))
-            index.append((ci, "legacy"))
+            if not c.get("big"):
+                exprs.append(parse_expr(c, im, False))
+                index.append((ci, "legacy"))
             if "pos" in im["res"]:
                 spec = im["spec"]
                 exprs.append(bind_expr(spec, im["res"]["pos"], im["res"]["kw"]))
@@ -827,7 +922,7 @@ def gen_cli_cases(ctx, n):
         r = cm.rng(ctx.seed, "c15cli", i)
         flags = r.choice([["--safe"], ["--args=string"], ["--args", "string"], ["--safe", "--apply"], ["--args=auto"]])
         func = r.choice(["show", "show", "two", "print"])
-        vals = [v for v in PLAIN + EXPRS + ["(1+2)", "[1,2]", "(3)", "(1+2)", "o'q", "$HOME", "a;b", "*.py", "a|b", "/usr/bin", "a\\b", "\u00e9", "foo=1"]
+        vals = [v for v in PLAIN + EXPRS + ["(1+2)", "[1,2]", "(3)", "(1+2)", "o'q", "$HOME", "a;b", "*.py", "a|b", "/usr/bin", "a\\b", "\u00e9", "fq_=1"]
                 if v.strip() and not v.startswith("-") and v not in ("?", "??", "sys.exit(3)", "print(end='')")]
         argv = [r.choice(vals) for _ in range(r.randint(1, 3))]
         if r.random() < .5:
@@ -905,6 +1000,9 @@ def compare(ctx, cases, impl, index, model):
             mres = model_res(m["parse"])
             ires = im["res"]
             ctx.bump("mode:" + c["mode"])
+            if c.get("big"):
+                ctx.bump("size_extreme:argv=%d,longest=%s" % (10 ** len(str(len(c["argv"]))) // 10,
+                                                               10 ** len(str(max([len(a) for a in c["argv"]] + [len(c["stdin"])]))) // 10))
             ctx.bump("callable:" + c["ckind"])
             ctx.bump("result:" + (ires.get("err", "ok") + (":" + ires["kind"] if "kind" in ires else "")))
             if is_f13_shape(c):
@@ -914,7 +1012,7 @@ def compare(ctx, cases, impl, index, model):
                 ctx.disagreement("oracle hypothesis: an evaluation during the run differs from the fresh-namespace table",
                                  c, im["oracle_mismatch"], None)
             if mres != ires:
-                lres = model_res(m["legacy"])
+                lres = model_res(m["legacy"]) if "legacy" in m else None
                 name = "_parse_auto_apply_args"
                 if lres == ires:
                     name += " (the tree behaves like the code before the F13 repair)"
@@ -924,7 +1022,7 @@ def compare(ctx, cases, impl, index, model):
                 if mb != im["pybind"]:
                     ctx.disagreement("BindSpec.bind vs inspect.signature.bind", c, im["pybind"], mb)
             for clause, msg in oracle_parse(c, im):
-                ctx.violation(clause, c, msg)
+                ctx.violation(clause, c, msg if len(msg) < 700 else msg[:500] + " ... " + msg[-150:])
             nontriv = any(a.startswith("-") for a in c["argv"]) or len(c["argv"]) > 1
             ctx.count(c, nontriv)
             if nontriv and "pos" in ires:
@@ -995,7 +1093,17 @@ def run(ctx):
     exprs, index = model_exprs(cases, impl)
     model = cm.coq_eval_json(REQ, exprs, shard=300)
     compare(ctx, cases, impl, index, model)
-    ctx.notes["model_evaluations_in_kernel"] = len(exprs)
+    # size extremes: their own small shards (a 64k-character argument costs the kernel tens of seconds)
+    big = gen_big_cases(ctx)
+    bimpl = cm.run_impl("c15", "impl_case", big, timeout_case=120)
+    bexprs, bindex = model_exprs(big, bimpl)
+    order = sorted(range(len(bexprs)), key=lambda k: -len(bexprs[k]))
+    bmodel_sorted = cm.coq_eval_json(REQ, [bexprs[k] for k in order], shard=2, timeout=1500)
+    bmodel = [None] * len(bexprs)
+    for k, mv in zip(order, bmodel_sorted):
+        bmodel[k] = mv
+    compare(ctx, big, bimpl, bindex, bmodel)
+    ctx.notes["model_evaluations_in_kernel"] = len(exprs) + len(bexprs)
     # bin/py subprocess sample
     cli = gen_cli_cases(ctx, (24 if ctx.quick else 400) * ctx.scale)
     cres = cm.run_impl("c15", "impl_case", cli, timeout_case=90)
